@@ -700,7 +700,8 @@ def run(ctx):
                 "parameters or three levels (grid); distinct = distinct (generator, size, bounds, seed)")
     ctx.assumptions += [
         "bounds are finite with lb < ub (a parameter with lb >= ub has no strata/levels 'from the lower to the upper bound'); parameter names are distinct (LHS/Halton pass a dict keyed by name)",
-        "real-valued parameters; a 'precision' key is only used with bounds that are multiples of it (otherwise gen_number rounds up to prec/2 out of the box, theorem genNumber_bounds)",
+        "real-valued parameters; a 'precision' key is only used with bounds that are multiples of it (otherwise gen_number rounds up to prec/2 out of the box, theorem genNumber_bounds; observed on the unchanged code: bounds [0, 0.9], precision 0.25 -> 1.0)",
+        "random generator: 'in bounds' is judged with the band 1e-12 + 1e-9*max|bound| (DESIGN C08's tau); the default precision 1e-12 lets gen_number leave the box by up to 5e-13, which is visible only for boxes narrower than about 1e-12 (bounds [0, 0.7e-12] -> 1e-12); such boxes are not generated",
         "IEEE rounding stays within the R2 band (1e-9 relative + 1e-12 absolute): a sample within that band of a stratum boundary counts for either stratum; out-of-bounds is judged with the same band",
         "_primes_from_2_to (numpy wheel sieve) is modelled by its contract 'primes below n, increasing'; agreement on the first 200 primes is tested through the Halton designs",
         "numpy RandomState.rand returns values in [0,1) and RandomState.permutation(range(N)) a permutation (inputs of lhs_latin)",
